@@ -176,3 +176,206 @@ example : buildChunks [[f0, g0], [f1, w0, f2], [f0']] = fromInstructions [f0, g0
 example : firstOcc ["b", "a", "b", "c", "a"] = ["b", "a", "c"] := by decide
 
 end QV.C08
+
+/-! #### derived programs: every producing operation keeps the first-added order -/
+namespace QV.C08
+open QV.Prog QV.C09
+
+/-- "first-added order is kept": the keys already in `base` come first and form a sub-list of
+`base` (same relative order); keys new to `base` follow -/
+def OrdPres (base out : List String) : Prop :=
+  ∃ sub rest, sub.Sublist base ∧ out = sub ++ rest ∧ ∀ x ∈ rest, x ∉ base
+
+/-- the Bool checker evaluated on the implementation's listings decides `OrdPres` -/
+theorem C08_ordPres_iff (base out : List String) : ordPres base out = true ↔ OrdPres base out := by
+  constructor
+  · intro h
+    simp only [ordPres, Bool.and_eq_true, beq_iff_eq, List.isSublist_iff_sublist] at h
+    refine ⟨_, _, h.2, h.1, ?_⟩
+    intro x hx; simp only [List.mem_filter, Bool.not_eq_true', List.contains_eq_mem, decide_eq_false_iff_not] at hx
+    exact hx.2
+  · rintro ⟨sub, rest, hs, rfl, hr⟩
+    have h1 : (sub ++ rest).filter (fun k => base.contains k) = sub := by
+      rw [List.filter_append]
+      have : rest.filter (fun k => base.contains k) = [] := by
+        apply List.filter_eq_nil_iff.mpr; intro x hx; simpa using hr x hx
+      rw [this, List.append_nil]
+      apply List.filter_eq_self.mpr; intro x hx; simpa using hs.subset hx
+    have h2 : (sub ++ rest).filter (fun k => !base.contains k) = rest := by
+      rw [List.filter_append]
+      have : sub.filter (fun k => !base.contains k) = [] := by
+        apply List.filter_eq_nil_iff.mpr; intro x hx; simpa using hs.subset hx
+      rw [this, List.nil_append]
+      apply List.filter_eq_self.mpr; intro x hx; simpa using hr x hx
+    simp only [ordPres, h1, h2, Bool.and_eq_true, beq_iff_eq, List.isSublist_iff_sublist, true_and]
+    exact hs
+
+theorem OrdPres.refl (l : List String) : OrdPres l l := ⟨l, [], List.Sublist.refl l, by simp, by simp⟩
+
+theorem OrdPres.of_sublist {base out : List String} (h : out.Sublist base) : OrdPres base out :=
+  ⟨out, [], h, by simp, by simp⟩
+
+/-- removing elements afterwards keeps the relation -/
+theorem OrdPres.sublist {base out out' : List String} (h : OrdPres base out) (hs : out'.Sublist out) :
+    OrdPres base out' := by
+  obtain ⟨sub, rest, h1, rfl, h3⟩ := h
+  obtain ⟨l1, l2, rfl, hl1, hl2⟩ := List.sublist_append_iff.mp hs
+  exact ⟨l1, l2, hl1.trans h1, rfl, fun x hx => h3 x (hl2.subset hx)⟩
+
+private theorem keys_filter_key (l : List Instr) (P : String → Bool) :
+    keys (l.filter (fun f => P f.key)) = (keys l).filter P := by
+  induction l with
+  | nil => rfl
+  | cons x xs ih =>
+    by_cases h : P x.key <;> simp [List.filter_cons, h, ih]
+
+private theorem keys_filter_sublist (l : List Instr) (f : Instr → Bool) : (keys (l.filter f)).Sublist (keys l) := by
+  simpa [keys] using (List.filter_sublist (l := l) (p := f)).map (fun x : Instr => x.key)
+
+/-- inserting a list of definitions into a container: the old keys stay where they are, new keys
+are appended -/
+theorem ordPres_foldl_upsert (l xs : List Instr) : OrdPres (keys l) (keys (xs.foldl upsert l)) := by
+  rw [keys_foldl_upsert]
+  refine ⟨keys l, _, List.Sublist.refl _, rfl, ?_⟩
+  intro x hx; simp only [List.mem_filter, decide_eq_true_eq] at hx; exact hx.2
+
+private theorem eraseKey_sublist (l : List Instr) (k : String) : (eraseKey l k).Sublist l := by
+  induction l with
+  | nil => simp [eraseKey]
+  | cons x xs ih =>
+    by_cases h : x.key = k
+    · simp [eraseKey, h]
+    · simp only [eraseKey, h, if_false]; exact ih.cons_cons x
+
+private theorem keys_sublist {a b : List Instr} (h : a.Sublist b) : (keys a).Sublist (keys b) := by
+  simpa [keys] using h.map (fun x : Instr => x.key)
+
+private theorem container_cloneWb (p : Program) (k : Kind) (hk : k ≠ .body) :
+    (rebuildUsed (cloneWithoutBody p)).container k = p.container k := by
+  cases k <;> first | rfl | exact absurd rfl hk
+
+private theorem ordPres_addMany (p : Program) (is : List Instr) (k : Kind) (hk : k ≠ .body) :
+    OrdPres (keys (p.container k)) (keys ((addMany p is).container k)) := by
+  rw [container_addMany]; simp only [hk, if_false]; exact ordPres_foldl_upsert _ _
+
+/-- the operations whose opaque input is well-formed: sequence expansion produces body instructions -/
+def DOp.valid : DOp → Bool
+  | .expSeq _ out => out.all (fun x => x.kind == .body)
+  | .sum a b => a.valid && b.valid
+  | _ => true
+
+private theorem addMany_body_only (p : Program) (out : List Instr) (h : ∀ x ∈ out, x.kind = .body)
+    (k : Kind) (hk : k ≠ .body) : (addMany p out).container k = p.container k := by
+  rw [container_addMany]; simp only [hk, if_false]
+  have : out.filter (fun x => decide (x.kind = k)) = [] := by
+    apply List.filter_eq_nil_iff.mpr; intro x hx; simp [h x hx]; exact fun e => hk e.symm
+  rw [this]; rfl
+
+/-- THE ORDER THEOREM for derived programs: for every producing operation other than `+`, every
+definition container of the result keeps the first-added order of the program it was applied to
+(a filtered set is a sub-list of the original order; additions go to the end) -/
+theorem C08_derived_order (p q : Program) (op : DOp) (hv : op.valid = true)
+    (hs : ∀ a b, op ≠ .sum a b) (k : Kind) (hk : k ≠ .body) :
+    OrdPres (keys (p.container k)) (keys ((derive p q op).container k)) := by
+  cases op with
+  | sum a b => exact absurd rfl (hs a b)
+  | clone => exact OrdPres.refl _
+  | cloneWb =>
+    have : (cloneWithoutBody p).container k = p.container k := by
+      cases k <;> first | rfl | exact absurd rfl hk
+    simp only [derive, this]; exact OrdPres.refl _
+  | resolve nb =>
+    have : (resolvePlaceholders p nb).container k = p.container k := by
+      cases k <;> first | rfl | exact absurd rfl hk
+    simp only [derive, this]; exact OrdPres.refl _
+  | intersect ks =>
+    cases k <;> simp only [derive, Program.container] <;>
+      first | exact OrdPres.refl _ | exact OrdPres.of_sublist (keys_filter_sublist _ _)
+  | merge =>
+    cases k <;> simp only [derive, Program.container] <;>
+      first | exact OrdPres.refl _ | exact ordPres_foldl_upsert _ _
+  | calExtend =>
+    cases k <;> simp only [derive, Program.container] <;>
+      first | exact OrdPres.refl _ | exact ordPres_foldl_upsert _ _
+  | extExtend =>
+    cases k <;> simp only [derive, Program.container] <;>
+      first | exact OrdPres.refl _ | exact ordPres_foldl_upsert _ _
+  | calRemove key =>
+    cases k <;> simp only [derive, Program.container] <;>
+      first | exact OrdPres.refl _ | exact OrdPres.of_sublist (keys_sublist (eraseKey_sublist _ _))
+  | mcalRemove key =>
+    cases k <;> simp only [derive, Program.container] <;>
+      first | exact OrdPres.refl _ | exact OrdPres.of_sublist (keys_sublist (eraseKey_sublist _ _))
+  | expCal out =>
+    have := ordPres_addMany (rebuildUsed (cloneWithoutBody p)) out k hk
+    rw [container_cloneWb p k hk] at this
+    exact this
+  | wrap n hd tl =>
+    match n with
+    | 0 =>
+      have : (cloneWithoutBody p).container k = p.container k := by
+        cases k <;> first | rfl | exact absurd rfl hk
+      simp only [derive, wrapInLoop, this]; exact OrdPres.refl _
+    | 1 => exact OrdPres.refl _
+    | n + 2 =>
+      have h := ordPres_addMany (cloneWithoutBody p) (hd ++ p.body ++ tl) k hk
+      have e : (cloneWithoutBody p).container k = p.container k := by
+        cases k <;> first | rfl | exact absurd rfl hk
+      rw [e] at h; exact h
+  | expSeq kept out =>
+    have hb : ∀ x ∈ out, x.kind = .body := by
+      intro x hx
+      simp only [DOp.valid, List.all_eq_true, beq_iff_eq] at hv
+      exact hv x hx
+    simp only [derive, expandSequences]
+    rw [addMany_body_only _ out hb k hk]
+    cases k <;> simp only [rebuildUsed, Program.container] <;>
+      first | exact OrdPres.refl _ | exact OrdPres.of_sublist (keys_filter_sublist _ _) | exact absurd rfl hk
+  | simplify out kF kW kE =>
+    -- after expansion every container is the old one with new keys appended; then calibrations are
+    -- dropped and frames / waveforms / externs are filtered
+    have he : ∀ k', k' ≠ .body →
+        OrdPres (keys (p.container k')) (keys ((expandCalibrations p out).container k')) := by
+      intro k' hk'
+      have := ordPres_addMany (rebuildUsed (cloneWithoutBody p)) out k' hk'
+      rw [container_cloneWb p k' hk'] at this
+      exact this
+    cases k
+    case body => exact absurd rfl hk
+    case cal => simp only [derive, Prog.simplify, rebuildUsed, Program.container]; exact OrdPres.of_sublist (by simp [keys])
+    case mcal => simp only [derive, Prog.simplify, rebuildUsed, Program.container]; exact OrdPres.of_sublist (by simp [keys])
+    case frame =>
+      simp only [derive, Prog.simplify, rebuildUsed, Program.container]
+      exact (he .frame (by decide)).sublist (keys_filter_sublist _ _)
+    case waveform =>
+      simp only [derive, Prog.simplify, rebuildUsed, Program.container]
+      exact (he .waveform (by decide)).sublist (keys_filter_sublist _ _)
+    case extern =>
+      simp only [derive, Prog.simplify, rebuildUsed, Program.container]
+      exact (he .extern (by decide)).sublist (keys_filter_sublist _ _)
+    case decl => simpa only [derive, Prog.simplify, rebuildUsed, Program.container] using he .decl (by decide)
+    case gateDef => simpa only [derive, Prog.simplify, rebuildUsed, Program.container] using he .gateDef (by decide)
+    case circuit => simpa only [derive, Prog.simplify, rebuildUsed, Program.container] using he .circuit (by decide)
+
+/-- … and for `+` with derived operands: the sum keeps the left operand's order, the right
+operand's new definitions are appended -/
+theorem C08_derived_sum_order (p q : Program) (a b : DOp) (k : Kind) (hk : k ≠ .body) :
+    OrdPres (keys ((derive p q a).container k)) (keys ((derive p q (.sum a b)).container k)) := by
+  simp only [derive]
+  rw [container_concat]; simp only [hk, if_false, extendMap]
+  exact ordPres_foldl_upsert _ _
+
+/-- a set operation that only filters yields exactly the sub-list of the original order selected by
+the predicate (`FrameSet::intersection`, the `retain`s of `simplify`) -/
+theorem C08_intersection_is_filter (p q : Program) (ks : List String) :
+    (derive p q (.intersect ks)).frames = p.frames.filter (fun f => ks.contains f.key) ∧
+    (keys (derive p q (.intersect ks)).frames).Sublist (keys p.frames) :=
+  ⟨rfl, keys_filter_sublist _ _⟩
+
+example : ordPres ["a", "b", "c", "d"] ["a", "c", "x"] = true := by decide
+/-- a kept pair in the wrong relative order is rejected -/
+example : ordPres ["a", "b", "c", "d"] ["c", "a"] = false := by decide
+/-- an old key after a new one is rejected -/
+example : ordPres ["a", "b"] ["x", "a"] = false := by decide
+
+end QV.C08
